@@ -702,7 +702,8 @@ EIGHTH_PASS = {
             "index algebra on the NE Foerster assembler; linear algebra in (trace, diagonal) on the depopulation statement"),
     "C02": ("Round 8: a store into a basis-managed tensor inside a basis context is made from managed reads.", "managed-store / managed-read pairing"),
     "C03": ("Round 8 and fourth hunt: the operators keep no strengths across a change of basis - a stored basis-dependent value is "
-            "tested only after the managed data were touched; a rebuilt aggregate derives its bath again.",
+            "tested only after the managed data were touched; a rebuilt aggregate derives its bath again; couplings are read at the "
+            "positions of the molecules in the signatures.",
             "stored-result analysis with the lazy-transformation obligation and the relay-flag form"),
     "C04": ("Third and fourth hunt, round 8: basis stacks move in lockstep; managed stores come from managed reads; __enter__ fails "
             "before it touches the bookkeeping; questions put to a managed object are answered from the managed property.",
